@@ -51,6 +51,7 @@ extern "C" void c14k_prologue() {
 }
 static void CriticalSectionAndUnlock(unsigned i) {
   if (++g_inside != 1) g_overlap = 1;
+  vp_sync_point();   // the critical section is a schedule point: another unit may run while this holder is inside
   --g_inside;
   ++g_finished;
   MU.UnlockHere();
@@ -78,6 +79,7 @@ extern "C" void c14k_prober() {
   if (MU.TryLock()) {
     ++g_try_ok;
     if (++g_inside != 1) g_overlap = 1;    // TryLock succeeded: nobody else may be inside
+    vp_sync_point();
     --g_inside;
     MU.UnlockHere();
     RunWoken();
